@@ -29,6 +29,7 @@ class FullGen:
         self.temp_bias = temp_bias  # one operand in `temp_bias` is forced to need a temporary (0 = never)
         self.kinds = set()
         self.uses_hbuff = False
+        self.big = False
         self.empty_data = draw(st.booleans()) if draw is not None else False  # the program will end in a DATA line with an empty item (switches the READ rewriting on)
 
     def d(self, s):
@@ -133,6 +134,39 @@ class FullGen:
             return ["let", g.num_target(), tail, let]
         return ["let", g.num_target(), ["bin", self.d(st.sampled_from(["+", "-", "*"])), g.num(self.d(st.integers(0, 1))), tail], let]
 
+    def scale_stmt(self):
+        """One statement that needs ten or more temporaries of one kind (tmp_10 / tmp_10$ ...), or a READ with ten or more numeric targets."""
+        g = self.g
+        k = self.d(st.integers(10, 16))
+        r = self.d(st.integers(0, 3))
+        self.kinds.add("scale_statement_%d" % r)
+        leafs = [["var", v] for v in g.real_vars[:4]] + [["num", str(i), i] for i in (1, 2, 3)]
+        if r == 0:
+            items = []
+            for i in range(k):
+                items += [["e", list(self.d(st.sampled_from(leafs)))], ["s", self.d(st.sampled_from([";", ";", ","]))]]
+            return ["print", items[:-1]]
+        if r == 1 and g.convertible:
+            g.n_conv += k
+            e_ = ["fn", "INT", [list(self.d(st.sampled_from(leafs)))]]
+            for i in range(k - 1):
+                e_ = ["bin", "+", e_, ["fn", self.d(st.sampled_from(["INT", "VAL"])), [["str", str(i)]] if False else [list(self.d(st.sampled_from(leafs)))]]]
+            return ["let", g.num_target(), e_, False]
+        if r == 2 and g.strings and g.convertible:
+            g.n_conv += k
+            e_ = ["fn", "STR$", [["num", "0", 0]]]
+            for i in range(1, k):
+                e_ = ["scat", e_, ["fn", self.d(st.sampled_from(["STR$", "HEX$"])), [["num", str(i), i]]]]
+            return ["let", g.str_target(), e_, False]
+        self.kinds.add("read")
+        self.empty_data = True
+        tg = []
+        for i in range(k):
+            v = self.d(st.sampled_from(g.real_vars))
+            g.used.add(("n", v))
+            tg.append(["var", v])
+        return ["read", tg]
+
     def first_operand(self):
         """Optional operand of CLS/HSCREEN/HCLS: the tool drops one that starts with a unary operator (open finding)."""
         x = self.e()
@@ -213,6 +247,9 @@ class FullGen:
     # ------------------------------------------------------------------ other statements
     def print_stmt(self):
         n = self.d(st.integers(0, 4))
+        if self.big and self.d(st.booleans()):
+            n = self.d(st.integers(10, 18))  # ten or more numeric items: string temporaries beyond tmp_9$
+            self.kinds.add("scale_print_many_items")
         items = []
         if self.d(st.integers(0, 7)) == 0:
             # a juxtaposed string literal right after an item that starts with a unary operator: PRINT "A="-A"B"
@@ -255,6 +292,9 @@ class FullGen:
     def data_stmt(self):
         self.kinds.add("data")
         n = self.d(st.integers(1, 4))
+        if self.big and self.d(st.booleans()):
+            n = self.d(st.integers(16, 24))
+            self.kinds.add("scale_data_many_items")
         items = []
         for _ in range(n):
             r = self.d(st.integers(0, 9))
@@ -363,12 +403,25 @@ def _append_last(stmts, new):
 @st.composite
 def full_programs(draw, switches=frozenset(), max_lines=10, operand_depth=1, with_control=True, device_fn=True, n_err=None, temp_bias=0):
     """-> dict(prog, meta).  Line references always hit existing lines."""
-    fg = FullGen(draw, switches, operand_depth=operand_depth, device_fn=device_fn, temp_bias=temp_bias)
+    fg = FullGen(draw, switches, operand_depth=operand_depth, device_fn=device_fn, temp_bias=temp_bias, max_str=255)
     g = fg.g
     n = draw(st.integers(1, max_lines))
     step = draw(st.sampled_from([10, 10, 1, 7, 100]))
     start = draw(st.sampled_from([10, 1, 0, 100, 5]))
     nums = [start + i * step for i in range(n)]
+    big = draw(st.integers(0, 11)) if max_lines >= 4 else 99
+    if big == 0:
+        # scale: many lines with five-digit numbers
+        fg.kinds.add("scale_many_lines")
+        n = draw(st.integers(16, 28))
+        start, step = 100, 1000
+        nums = [start + i * step for i in range(n)]
+    elif big == 1:
+        # scale: line numbers that are prefixes of one another
+        fg.kinds.add("scale_prefix_line_numbers")
+        nums = sorted(d_ * 10 ** k_ for d_ in (1, 2, 3) for k_ in range(5))[: draw(st.integers(8, 15))]
+        n, step, start = len(nums), 1, nums[0]
+    fg.big = big in (0, 1, 2)
     lines = []
     open_loops = []
     dim_done = False
@@ -416,7 +469,7 @@ def full_programs(draw, switches=frozenset(), max_lines=10, operand_depth=1, wit
             elif r < 13 and with_control:
                 fg.kinds.add("on_go")
                 stmts.append(["on", fg.e() if draw(st.integers(0, 2)) == 0 else g.integer(1), draw(st.sampled_from(["GOTO", "GOSUB"])),
-                              draw(st.lists(st.sampled_from(nums), min_size=1, max_size=4))])
+                              draw(st.lists(st.sampled_from(nums), min_size=1, max_size=12 if fg.big else 4))])
             elif r < 14 and with_control and len(open_loops) < 3:
                 fg.kinds.add("for")
                 v = "L%d" % len(open_loops)
@@ -502,18 +555,27 @@ def full_programs(draw, switches=frozenset(), max_lines=10, operand_depth=1, wit
                     stmts.append(["if", c, ["line", draw(st.sampled_from(nums))], ["line", draw(st.sampled_from(nums))]])
                 else:
                     fg.kinds.add("else_if")
-                    g.in_ifelse_cond = True
-                    c2 = g.cond(1, allow_bare=not g.on("ifelse_bare_numeric"))
-                    g.in_ifelse_cond = False
                     fin = ["stmts", one()] if (draw(st.booleans()) or g.on("elseif_needs_else")) else None
                     if fin is not None and draw(st.integers(0, 3)) == 0:
                         fin = ["line", draw(st.sampled_from(nums))]
                     then = ["line", draw(st.sampled_from(nums))] if form == "line_elseif" else ["stmts", one()]
-                    then2 = ["line", draw(st.sampled_from(nums))] if draw(st.integers(0, 3)) == 0 else ["stmts", one()]
-                    stmts.append(["if", c, then, ["stmts", [["if", c2, then2, fin]]]])
+                    # one to three ELSE IF arms, each with a statement body or a bare line number
+                    arms = draw(st.sampled_from([1, 1, 2, 3]))
+                    if arms > 1:
+                        fg.kinds.add("else_if_chain_%d" % arms)
+                    tail = fin
+                    for _a in range(arms):
+                        g.in_ifelse_cond = True
+                        ck = g.cond(1, allow_bare=not g.on("ifelse_bare_numeric"))
+                        g.in_ifelse_cond = False
+                        thenk = ["line", draw(st.sampled_from(nums))] if draw(st.integers(0, 2)) == 0 else ["stmts", one()]
+                        tail = ["stmts", [["if", ck, thenk, tail]]]
+                    stmts.append(["if", c, then, tail])
                 break
             else:
                 stmts.append(fg.misc())
+        if draw(st.integers(0, 24)) == 0 and stmts and stmts[-1][0] not in ("if", "rem"):
+            stmts.append(fg.scale_stmt())
         if not stmts:
             stmts.append(["rem", " empty", "REM"])
         # REM swallows the rest of the line; DATA ends at ':' - keep REM last
@@ -526,6 +588,10 @@ def full_programs(draw, switches=frozenset(), max_lines=10, operand_depth=1, wit
         elif r_tail == 1 and _append_last(stmts, ["rem", draw(st.sampled_from([" note", "", " a:b", " IT'S"])), "'", "nocolon"]):
             fg.kinds.add("apostrophe_comment_without_colon")
         lines.append([ln, stmts])
+        if draw(st.integers(0, 39)) == 0 and step > 1 and not fg.big:
+            # a comment line close to Color BASIC's line length limit, with runs of blanks and blanks at both ends (all content)
+            fg.kinds.add("scale_long_comment")
+            lines.append([ln + 1, [["rem", ("  COL1   COL2    COL3 " * 12)[:draw(st.sampled_from([200, 238, 241, 244]))] + " ", draw(st.sampled_from(["REM", "'"]))]]])
     # a READ somewhere + an empty DATA item switches on the tool's READ/DATA patching (string temporaries, ecb_read_filter)
     if "read" in fg.kinds and (fg.empty_data or draw(st.booleans())):
         fg.kinds.add("read_with_empty_data_item")
